@@ -29,7 +29,7 @@ ENTRY_NAMES = {'ci', 'ci_mean', 'ci_indices', 'ci_wilson', 'ci_wilson_ratio', 'c
                'append', 'append_pair', 'append_a', 'append_b', 'extend', 'extend_a', 'extend_b', 'extend_tuple', 'extend_if', 'from_iter',
                'ci_sorted_unchecked', 'ci_max_size', 'index', 'add_success', 'add_failure'}
 MODULES = ('mean::', 'comparison::', 'proportion::', 'quantile::')
-LEVEL = AV(Fraction(1, 1000), Fraction(9999, 10000))
+LEVEL_RANGE = AV(Fraction(1, 1000), Fraction(9999, 10000))
 
 # documented / reasoned-out panics: (predicate on (kind, where), reason)
 def documented(kind, where):
@@ -113,7 +113,7 @@ def run_cfg(chk, facts, cfg):
                 base = name.rsplit('.', 2)[0]
                 bty = sx.symty.get(base)
                 if bty is not None and bty.get('adt') == cm.path:
-                    env0.ref[T.sym(name)] = LEVEL
+                    env0.ref[T.sym(name)] = LEVEL_RANGE
         bad_panics = {}
         nan_ok = []
         proved = 0
@@ -204,7 +204,7 @@ def run_cfg(chk, facts, cfg):
                 env0.int_syms.add('n')
                 for name, ty in sx.symty.items():
                     if ty is not None and ty.get('k') == 'f64' and name.startswith('confidence.'):
-                        env0.ref[T.sym(name)] = LEVEL
+                        env0.ref[T.sym(name)] = LEVEL_RANGE
                 env0.ref.update(ref)
                 probs = []
                 nfeas = 0
